@@ -208,9 +208,12 @@ def print_assumptions(prop_file):
     return res, ""
 
 
-def run_harness(vharness, cmd, cases, timeout=1200, env=None, extra_args=()):
-    """Run cases through the harness.  If the process dies (fatal runtime error) the first
-    unanswered case is recorded as st=crash and the rest are re-run in a fresh process."""
+def run_harness(vharness, cmd, cases, timeout=1200, env=None, extra_args=(), stall=25):
+    """Run cases through the harness, reading results as they come.  A case that produces no
+    answer within `stall` seconds (the process can be wedged beyond its own timers) is recorded as
+    st=timeout, one on which the process dies as st=crash; the rest continue in a fresh process."""
+    import queue
+    import threading
     e = dict(GOENV)
     if env:
         e.update(env)
@@ -218,17 +221,48 @@ def run_harness(vharness, cmd, cases, timeout=1200, env=None, extra_args=()):
     todo = list(cases)
     t_end = time.time() + timeout
     while todo:
-        inp = "".join(json.dumps(c, ensure_ascii=False) + "\n" for c in todo)
-        try:
-            p = subprocess.run([vharness, cmd] + list(extra_args), input=inp.encode("utf-8"), stdout=subprocess.PIPE,
-                               stderr=subprocess.PIPE, timeout=max(5, t_end - time.time()), env=e)
-            so, se, rc = p.stdout, p.stderr, p.returncode
-        except subprocess.TimeoutExpired as ex:
-            so, se, rc = ex.stdout or b"", ex.stderr or b"", -9
-        last_rc, last_err = rc, (se or b"").decode("utf-8", "replace")[-3000:]
-        got = 0
-        for line in so.decode("utf-8", "replace").splitlines():
-            line = line.strip()
+        if time.time() > t_end:
+            for c in todo:
+                outs[c.get("id")] = {"id": c.get("id"), "st": "timeout", "msg": "harness wall-clock budget exhausted"}
+            break
+        p = subprocess.Popen([vharness, cmd] + list(extra_args), stdin=subprocess.PIPE, stdout=subprocess.PIPE,
+                             stderr=subprocess.PIPE, env=e)
+        q = queue.Queue()
+        errbuf = []
+
+        def feed(p=p, todo=list(todo)):
+            try:
+                for c in todo:
+                    p.stdin.write((json.dumps(c, ensure_ascii=False) + "\n").encode("utf-8"))
+                    p.stdin.flush()
+                p.stdin.close()
+            except Exception:
+                pass
+
+        def read(p=p):
+            for line in p.stdout:
+                q.put(line)
+            q.put(None)
+
+        def readerr(p=p):
+            try:
+                errbuf.append(p.stderr.read()[-6000:])
+            except Exception:
+                pass
+
+        for fn in (feed, read, readerr):
+            threading.Thread(target=fn, daemon=True).start()
+        hung = False
+        while True:
+            try:
+                line = q.get(timeout=max(1, min(stall, t_end - time.time())))
+            except queue.Empty:
+                hung = True
+                p.kill()
+                break
+            if line is None:
+                break
+            line = line.decode("utf-8", "replace").strip()
             if not line.startswith("{"):
                 continue
             try:
@@ -236,17 +270,25 @@ def run_harness(vharness, cmd, cases, timeout=1200, env=None, extra_args=()):
             except Exception:
                 continue
             outs[o.get("id")] = o
-            got += 1
+        try:
+            p.wait(timeout=10)
+        except Exception:
+            p.kill()
+        time.sleep(0.05)
+        last_rc = p.returncode
+        last_err = (errbuf[0] if errbuf else b"").decode("utf-8", "replace")[-3000:]
         rest = [c for c in todo if c.get("id") not in outs]
-        if not rest or rc == -9:
-            for c in rest:
-                outs[c.get("id")] = {"id": c.get("id"), "st": "timeout", "msg": "harness wall-clock budget exhausted"}
+        if not rest:
             break
-        # the process died while working on rest[0]
-        site = "unknown"
-        m = re.search(r"github\.com/arr-ai/arrai/([^\s(]+?)\.((?:\(\*?[A-Za-z0-9_]+\)\.)?[A-Za-z0-9_]+)", last_err)
+        if hung:
+            outs[rest[0].get("id")] = {"id": rest[0].get("id"), "st": "timeout", "msg": "no answer within %ds (process wedged); killed" % stall}
+            todo = rest[1:]
+            continue
+        if last_rc == 3:
+            todo = rest          # voluntary exit after a timed-out case
+            continue
         head = last_err.strip().splitlines()[0][:200] if last_err.strip() else ""
-        outs[rest[0].get("id")] = {"id": rest[0].get("id"), "st": "crash", "msg": head, "site": site}
+        outs[rest[0].get("id")] = {"id": rest[0].get("id"), "st": "crash", "msg": head, "site": "unknown"}
         todo = rest[1:]
     return outs, last_rc, last_err
 
